@@ -28,6 +28,9 @@ RULES = {
     'C01.h': 'a mutation command that answers success did mutate: in the Set / Increment / Remove arms a locally built success reply '
              'is dominated by the call of the mutator (or, on a non-primary node, of the forwarder)',
     'C01.i': 'the request entry hands the command text to the parser with nothing but its line end removed (no trim / trim_end / split_whitespace between the transport and Request::parse): the value is the tail of the line',
+    'C01.j': 'an entry is taken out of the shared map only on a test of its CURRENT content: every HashMap::remove on Database.map is '
+             'controlled by a branch whose condition derives from a lookup of the same map that dominates it (taken under the same '
+             'guard) — a removal decided on an earlier copy deletes a key that a client has set again in the meantime',
 }
 
 VALUE_MAP = 'std::collections::HashMap::<std::string::String, nundb::bo::Value>::'
@@ -261,6 +264,26 @@ def run(ck, m):
     ck.ob('C01.e', short(ib.id), 'adds-its-argument', oke and zero, whye + ('; absent default "0"' if zero else '; no "0" default'),
           '%s:%s' % (ib.file, ib.line))
 
+    # the text handed to the number parser is the stored value as it is: a blank-stripping call in between (trim, trim_end …) makes
+    # `"7 "` a number — the increment then REPLACES a value it has to refuse
+    from nl.locks import backward_slice as _bsl
+    STRIP = ('trim', 'trim_start', 'trim_end', 'trim_matches', 'trim_start_matches', 'trim_end_matches', 'trim_ascii', 'trim_ascii_start',
+             'trim_ascii_end', 'strip_prefix', 'strip_suffix', 'split_whitespace', 'split_ascii_whitespace', 'replace', 'replacen',
+             'to_lowercase', 'to_uppercase', 'split', 'splitn', 'rsplit', 'lines', 'chars', 'filter', 'trim_left', 'trim_right')
+    parses = [(bi, t) for bi, t in ib.calls() if callee_decl(t) in ('std::num::from_str_radix', 'std::str::parse', 'std::str::FromStr::from_str')]
+    np_ = 0
+    for bi, t in parses:
+        if not t['args']:
+            continue
+        np_ += 1
+        cleaned = sorted({callee_decl(ib.term(c)).split('::')[-1] for c in _bsl(ib, t['args'][0])[0]
+                          if callee_decl(ib.term(c)).startswith(('std::str::', 'std::string::String::', 'std::iter::Iterator::'))
+                          and callee_decl(ib.term(c)).split('::')[-1] in STRIP})
+        ck.ob('C01.e', short(ib.id), 'parses-the-stored-text-as-it-is', not cleaned,
+              'the stored text reaches the number parser unmodified' if not cleaned else
+              'the increment applies %s to the stored value before parsing it: a value that is not an integer (`"7 "`, `" 7"`, `"7\\r"`) is '
+              'accepted and replaced by a number instead of being refused unchanged' % cleaned, ib.loc(bi))
+    ck.floor('C01.e', np_, 1, 'number parses in the increment')
     # ---- (f) tombstone typestate ----------------------------------------------------------
     ADT = 'nundb::bo::ValueStatus'
     ex = m.explorer()
@@ -401,3 +424,40 @@ def run(ck, m):
                   '`set k "v  "` stores "v" and `set k "5 "` becomes a number that increment accepts — get returns a value that was never written'
                   % extra, eb.loc(x))
     ck.floor('C01.i', ne, 1, 'request entries that call the parser')
+    removal_rechecks(ck, m)
+
+
+def removal_rechecks(ck, m):
+    """C01.j — see RULES"""
+    from nl.locks import backward_slice
+    P = m.prog
+    VM = 'std::collections::HashMap::<std::string::String, nundb::bo::Value>::'
+    n = 0
+    for b in P.user_bodies():
+        if b.id.startswith(('nundb::client::', 'nundb::command_line::')):
+            continue
+        for bi, t in b.calls():
+            da = t['f'].get('dargs', '')
+            if not (da.startswith(VM) and callee_decl(t).split('::')[-1] in ('remove', 'remove_entry')):
+                continue
+            n += 1
+            gets = [x for x, t2 in b.calls() if t2['f'].get('dargs', '').startswith(VM + 'get') and b.dominates(x, bi)]
+            controlled = False
+            for sb in b.reachable():
+                ts = b.term(sb)
+                if ts['k'] != 'switch' or not b.dominates(sb, bi):
+                    continue
+                # the switch decides the removal: some successor cannot reach it
+                succ = [x for x in b.succ(sb) if not b.blocks[x].get('cleanup')]
+                if all(bi in b.reach_from([x], include_start=True) for x in succ):
+                    continue
+                calls, _params = backward_slice(b, ts['o'])
+                if calls & set(gets):
+                    controlled = True
+            ck.ob('C01.j', short(b.id), 'removal-decided-on-the-current-entry', controlled,
+                  'the entry is removed on a branch that tests what the map holds for the key at that moment' if controlled else
+                  '%s removes an entry of the shared map without looking at what the map holds for the key at that moment (no lookup of '
+                  'the map controls the removal): decided on an earlier copy of the entry — the tombstone the snapshot copied — it deletes a '
+                  'key that a client has set again since; the acknowledged set is lost (get answers <Empty>, keys no longer lists it)'
+                  % short(b.id), b.loc(bi))
+    ck.floor('C01.j', n, 2, 'removals from Database.map')
